@@ -1,5 +1,5 @@
 // C15: DREAM sampling is memory-safe, stays in the domain and keeps consistent books.
-// args: chains dims burnup collect form(0 reg,1 log) update(0 none,1 uniform,2 gaussian,3 user) split(0 / c1: second run after the first c1 collected iterations) [reseed: 0 none, 1 setState(vector), 2 setState(function) between the two runs]
+// args: chains dims burnup collect form(0 reg,1 log) update(0 none,1 uniform,2 gaussian,3 user) split(0 / c1: second run after the first c1 collected iterations) [reseed: 0 none, 1 setState(vector), 2 setState(function) between the two runs] [iface: 0 C++ templates, 1 the C interface tsgDreamSample()]
 #include "TasmanianDREAM.hpp"
 #include "fpsym.h"
 #include <map>
@@ -13,24 +13,46 @@ struct World {
   // default values are functions of the coordinates (not of the numbering) so that the plain and the instrumented build agree on them
   static double mix(const std::vector<double> &x){ double s = 0.37; for (size_t d=0;d<x.size();d++) s += (3.7 + d) * fpsym_concrete(x[d]); s = s - std::floor(s); return s; }
   double pdfOf(const std::vector<double> &x){ int id = idOf(x); double m = mix(x); return form == 0 ? fpsym_symbolic(0.1 + 1.5 * m, 2000 + id, 0.05, 2.0) : fpsym_symbolic(-2.0 + 4.0 * m, 2000 + id, -3.0, 3.0); }
+  void cb_pdf(const std::vector<double> &cand, std::vector<double> &vals){
+    for (size_t i=0;i<vals.size();i++){ std::vector<double> x(cand.begin() + i * D, cand.begin() + (i + 1) * D); vals[i] = pdfOf(x); }
+    ev.push_back({3, 0.0, cand, false, vals}); }
+  bool cb_inside(const std::vector<double> &x){ int id = idOf(x); bool in = fpsym_flag(1000 + id, mix(x) < 0.8); ev.push_back({2, 0.0, x, in, {}}); return in; }
+  double cb_rng(){ double u = fpsym_symbolic(0.15 + 0.21 * (n_rng % 4), 3000 + n_rng, 0.0, 1.0); n_rng++; ev.push_back({0, u, {}, false, {}}); return u; }
+  double cb_weight(){ double w = fpsym_symbolic(0.5 + 0.125 * (n_w % 3), 4000 + n_w, 0.0, 1.0); n_w++; ev.push_back({1, w, {}, false, {}}); return w; }
   template<TypeSamplingForm F> void sample(int burn, int collect, TasmanianDREAM &state){
-    auto pdf = [&](const std::vector<double> &cand, std::vector<double> &vals)->void{
-      for (size_t i=0;i<vals.size();i++){ std::vector<double> x(cand.begin() + i * D, cand.begin() + (i + 1) * D); vals[i] = pdfOf(x); }
-      ev.push_back({3, 0.0, cand, false, vals}); };
-    auto inside = [&](const std::vector<double> &x)->bool{ int id = idOf(x); bool in = fpsym_flag(1000 + id, mix(x) < 0.8); ev.push_back({2, 0.0, x, in, {}}); return in; };
-    auto rng = [&]()->double{ double u = fpsym_symbolic(0.15 + 0.21 * (n_rng % 4), 3000 + n_rng, 0.0, 1.0); n_rng++; ev.push_back({0, u, {}, false, {}}); return u; };
-    auto weight = [&]()->double{ double w = fpsym_symbolic(0.5 + 0.125 * (n_w % 3), 4000 + n_w, 0.0, 1.0); n_w++; ev.push_back({1, w, {}, false, {}}); return w; };
+    auto pdf = [&](const std::vector<double> &cand, std::vector<double> &vals)->void{ cb_pdf(cand, vals); };
+    auto inside = [&](const std::vector<double> &x)->bool{ return cb_inside(x); };
+    auto rng = [&]()->double{ return cb_rng(); };
+    auto weight = [&]()->double{ return cb_weight(); };
     if (update == 0) SampleDREAM<F>(burn, collect, pdf, inside, state, no_update, weight, rng);
     else if (update == 1) SampleDREAM<F>(burn, collect, pdf, inside, state, dist_uniform, 0.25, weight, rng);
     else if (update == 2) SampleDREAM<F>(burn, collect, pdf, inside, state, dist_gaussian, 0.25, weight, rng);
     else SampleDREAM<F>(burn, collect, pdf, inside, state, [&](std::vector<double> &x)->void{ for (auto &v : x) v += 0.125 * (2.0 * rng() - 1.0); }, weight, rng);
   }
-  void run(int burn, int collect, TasmanianDREAM &state){ if (form == 0) sample<regform>(burn, collect, state); else sample<logform>(burn, collect, state); }
+  int iface = 0;   // 1: through the C interface tsgDreamSample() that the Python / Fortran bindings use
+  void runC(int burn, int collect, TasmanianDREAM &state);
+  void run(int burn, int collect, TasmanianDREAM &state){ if (iface == 1){ runC(burn, collect, state); return; } if (form == 0) sample<regform>(burn, collect, state); else sample<logform>(burn, collect, state); }
 };
+// the C interface takes plain function pointers: trampolines into the one world of the run
+static World *GW = nullptr;
+extern "C" void tsgDreamSample(int form, int num_burnup, int num_collect, void (*distribution)(int, int, const double[], double[], int*), void *state_pntr, void *domain_grid, double domain_lower[], double domain_upper[],
+                               int (*domain_callback)(int, const double[]), const char *iupdate_type, double iupdate_magnitude, void (*iupdate_callback)(int, double[], int*), int dupdate_percent, double (*dupdate_callback)(),
+                               const char *random_type, int random_seed, double (*random_callback)(), int *err);
+static void c_pdf(int num_samples, int num_dims, const double x[], double y[], int *err){ std::vector<double> cand(x, x + (size_t) num_samples * num_dims), vals(num_samples); GW->cb_pdf(cand, vals); for (int i=0;i<num_samples;i++) y[i] = vals[i]; *err = 0; }
+static int c_inside(int num_dims, const double x[]){ return GW->cb_inside(std::vector<double>(x, x + num_dims)) ? 1 : 0; }
+static void c_iupdate(int num_dims, double x[], int *err){ if (GW->update == 3) for (int j=0;j<num_dims;j++) x[j] += 0.125 * (2.0 * GW->cb_rng() - 1.0); *err = 0; }
+static double c_weight(){ return GW->cb_weight(); }
+static double c_rng(){ return GW->cb_rng(); }
+void World::runC(int burn, int collect, TasmanianDREAM &state){
+  GW = this; int err = 1;
+  const char *itype = update == 1 ? "uniform" : update == 2 ? "gaussian" : "null";   // "null": the callback version (update 0: a callback that leaves x alone; update 3: the user update)
+  tsgDreamSample(form, burn, collect, c_pdf, &state, nullptr, nullptr, nullptr, c_inside, itype, 0.25, c_iupdate, -1, c_weight, "custom", 17, c_rng, &err);
+  fpsym_check(err == 0, "tsgDreamSample() reports success");
+}
 
 int main(int argc, char **argv){
-  int C = atoi(argv[1]), D = atoi(argv[2]), burn = atoi(argv[3]), collect = atoi(argv[4]), form = atoi(argv[5]), update = atoi(argv[6]), split = atoi(argv[7]); int reseed = argc > 8 ? atoi(argv[8]) : 0;
-  World w; w.C = C; w.D = D; w.form = form; w.update = update;
+  int C = atoi(argv[1]), D = atoi(argv[2]), burn = atoi(argv[3]), collect = atoi(argv[4]), form = atoi(argv[5]), update = atoi(argv[6]), split = atoi(argv[7]); int reseed = argc > 8 ? atoi(argv[8]) : 0; int iface = argc > 9 ? atoi(argv[9]) : 0;
+  World w; w.iface = iface; w.C = C; w.D = D; w.form = form; w.update = update;
   std::vector<double> init(C * D); for (int i=0;i<C*D;i++) init[i] = fpsym_symbolic(-0.6 + 0.37 * i, 10 + i, -1.0, 1.0);
   TasmanianDREAM state(C, D); state.setState(init);
   // the initial state is inside the domain by assumption: its points are known to the world with that verdict; their pdf values
